@@ -168,6 +168,18 @@ CLAIMED.update({
    design="6 (C15)", technique="Coq proof (nsatz for the half-way quaternion identity, real analysis for branches and tolerances) + exact-rational correspondence incl. degenerate branches"),
 })
 
+CLAIMED.update({
+ "C14": dict(
+   text="Machine-checked Coq theorems: lerp(a,b,t) = a + (b-a)t with a at 0 and b at 1 (vectors 1-4, quaternions, any commutative ring); over the reals, for unit a, b and t in [0,1]: "
+        "nlerp returns a unit quaternion that is a non-negative combination of a and b' = +-b (the sign with a.b' >= 0), equal to a at 0 and b' at 1; slerp for |a.b| <= cast(0.9995) returns "
+        "a unit quaternion on the same arc with exact endpoints and a.slerp(t) = cos(t theta), acos(a.slerp(t)) = t theta, theta = acos|a.b| (constant angular speed, from the identities "
+        "s1^2 + s2^2 + 2 s1 s2 cos theta = sin^2 theta and s1 + s2 cos theta = sin theta cos(t theta)); beyond the threshold slerp is nlerp on the same arc and the arc from a to the result is "
+        "within 1e-5 rad of t theta (analytic bound |sin(psi - t theta)| <= theta^3/(6 n) via x - x^3/6 <= sin x <= x, theta <= 0.0317). " + TIE +
+        "Inputs are unit quaternions in rational planes with chord points of rational length (nlerp) or lattice angles k*beta with t = j/k (slerp), so every normalisation is exact.",
+   note=NOTE + RAX + "sqrt/sin/acos are the real functions (oracles for f32/f64); the interval tactic is used for three numeric constants. Matrix lerp is not modelled.",
+   design="6 (C14)", technique="Coq proof (real analysis: trigonometric identities, Taylor bound of sin, monotonicity) + exact-rational correspondence on lattice inputs"),
+})
+
 def main():
     checks = []
     for pid in ALL:
